@@ -89,9 +89,10 @@ def snapshot(env):
             tuple(sorted((str(k), fl(v)) for k, v in b._holdings_margins.items() if np.any(np.asarray(v) != 0))), len(b.track_record))
 
 
-def run_case(sname, delay, bad_idx, pos, filler):
+def run_case(sname, delay, bad_idx, pos, filler, reuse=False):
     """Episode with the malformed action (or none if bad_idx is None) submitted at step `pos`;
-    in-space filler actions elsewhere."""
+    in-space filler actions elsewhere.  With `reuse` the caller keeps ONE action buffer: the array accepted at step pos-1 is
+    overwritten in place with the malformed values and submitted again (the same object, now outside the space)."""
     factory, good, bad, denote, measure, fractional = SPACES[sname]
     msgs = []
     env = make_env(sname, delay)
@@ -99,13 +100,19 @@ def run_case(sname, delay, bad_idx, pos, filler):
     submitted = []
     raised_at = None
     steps = NB - 1
+    buf = None
     for k in range(steps):
         if bad_idx is not None and k == pos:
             action = bad[bad_idx]
-            submitted.append(("bad", action))
+            if reuse and buf is not None and isinstance(action, np.ndarray) and action.shape == buf.shape:
+                buf[...] = action
+                action = buf
+            submitted.append(("bad", np.array(action, copy=True) if isinstance(action, np.ndarray) else action))
         else:
             action = good[(filler + k) % len(good)]
-            submitted.append(("good", action))
+            if reuse and bad_idx is not None and k == pos - 1:
+                action = buf = np.array(action, dtype=float)
+            submitted.append(("good", np.array(action, copy=True) if isinstance(action, np.ndarray) else action))
         nlv_pre = env.broker.net_liquidation_value(False)
         before = snapshot(env)
         books = {c.symbol: (env.exchange[c].bid_price, env.exchange[c].ask_price) for c in (A, B)}
@@ -203,6 +210,10 @@ def all_cases(tier):
                 for pos in range(NB - 1):
                     for filler in (fillers if tier == "thorough" else fillers[:1] if pos else fillers):
                         yield (sname, delay, bi, pos, filler)
+                    # the caller re-uses one array: accepted at step pos-1, overwritten in place, submitted again (delay 0: with a
+                    # delay the queue holds a reference to the caller's buffer, which is outside the statement - DESIGN 10.4b)
+                    if delay == 0 and pos >= 1 and isinstance(spec[2][bi], np.ndarray) and np.asarray(spec[2][bi]).ndim == 1 and sname.startswith("box"):
+                        yield (sname, delay, bi, pos, 0, True)
 
 
 def _work(chunk):
@@ -217,7 +228,7 @@ def _work(chunk):
         if raised_at is not None:
             out["nontrivial"].add(case)
         if msgs:
-            out["violations"].append(({"space": case[0], "delay": case[1], "bad": case[2], "pos": case[3], "filler": case[4]},
+            out["violations"].append(({"space": case[0], "delay": case[1], "bad": case[2], "pos": case[3], "filler": case[4], "reuse": len(case) > 5 and case[5]},
                                       "space %s delay %d: %s" % (case[0], case[1], "; ".join(msgs[:2])),
                                       (case[0].split("-")[0], msgs[0].split(" ")[0], case[1])))
     return out
@@ -240,7 +251,7 @@ def run(tier, **kw):
     rep.set("rule", "one evaluation = one 4-step episode; enumerated: 13 spaces (Box [0,1], Box [-1,1.5], whole-lot contract Box [0,8], Discrete with 4 allocations; "
                     "contract lists without cash / cash first / cash last / cash in the middle) x delay {0,1,2} x every malformed action of the space's menu (wrong length, 2-D, out of "
                     "bounds by one ulp and by 1, NaN, +-inf, None, string, scalar; discrete: -1, n, 1.5, 1e9, None, string, array, NaN, 2.0) injected at every step "
-                    "position, in-space filler actions elsewhere, plus fault-free episodes; non-trivial = distinct case in which a call raised")
+                    "position, in-space filler actions elsewhere, plus fault-free episodes, plus (delay 0, Box spaces) the malformed values written IN PLACE into the array object accepted at the previous step and submitted again; non-trivial = distinct case in which a call raised")
     rep.set("samples", [{"space": "box01-cashfirst", "delay": 1, "bad": 3, "pos": 2, "filler": 0,
                          "meaning": "weight one ulp above the upper bound submitted at step 2 with delay 1: must raise at step 3 at the latest, account unchanged"}])
     rep.assumptions = ["np.bool_/bool indices are not in the malformed menu (gymnasium's Discrete accepts them as integers)",
@@ -250,7 +261,7 @@ def run(tier, **kw):
 
 def replay(case, **kw):
     try:
-        msgs, _ = run_case(case["space"], case["delay"], case["bad"], case["pos"], case["filler"])
+        msgs, _ = run_case(case["space"], case["delay"], case["bad"], case["pos"], case["filler"], case.get("reuse", False))
     except Exception as ex:
         msgs = ["harness: running the case raised %r" % (ex,)]
     return msgs
